@@ -6,6 +6,15 @@ import (
 	"context"
 	"fmt"
 	"sync"
+
+	"github.com/twmb/franz-go/pkg/kgo/internal/xsync"
+)
+
+// VerifMutex and VerifRWMutex alias the mutexes the client uses (channel
+// based under the synctests tag).
+type (
+	VerifMutex   = xsync.Mutex
+	VerifRWMutex = xsync.RWMutex
 )
 
 // This file exposes a few internals to the verification harness. It is built
